@@ -114,6 +114,12 @@ pub struct PlanExt {
     pub type_vars: bool,
     /// appended to the generated doc comment
     pub doc: Option<String>,
+    /// a style seen through a style trait also has the getters of its supertrait `CoreStyle` (the caller has checked the
+    /// `trait X: CoreStyle` declaration) — absmod.rs
+    pub view_core: bool,
+    /// a statement `if [let PAT =] e { … }` without `else` whose block only updates ONE outer local `x` is `let x := if/match … | _ => x`
+    /// instead of a copy of the rest of the function in each branch — absmod.rs
+    pub join_ifs: bool,
 }
 
 pub struct Out {
@@ -288,6 +294,8 @@ pub fn translate_fn(w: &World, p: &Plan, ns: &str) -> R<(String, FnSig)> {
     let mut cx = Ctx::new(w, p.self_ty.clone(), p.generics.clone());
     cx.trunc_sub = p.trunc_sub;
     cx.prog = p.ext.prog.clone();
+    cx.view_core = p.ext.view_core;
+    cx.join_ifs = p.ext.join_ifs;
     let prog = p.ext.prog.as_ref();
     // generic type parameters of the function itself: closure types (`F: Fn(..) -> ..`) and the tree's type are not type
     // variables of the Lean definition; anything else that the caller has not instantiated stays abstract
